@@ -161,6 +161,7 @@ func (tst *tsTable) startLoop(cur uint64) {
 	tst.mergeCh = mergeCh
 	introducerWatcher := make(watcher.Channel, 1)
 	flusherWatcher := make(watcher.Channel, 1)
+	verifLoopsStarted(tst, flushCh, mergeCh)
 	// Each loop already calls tst.loopCloser.Done via defer, so a panic
 	// captured by run.Go still decrements the closer; lifecycle ordering
 	// for tsTable shutdown is preserved. The loop methods predate this
